@@ -74,6 +74,19 @@ PROPS = {
         thorough=[mc('mc_execq', 'all', 'sc', P=3, E=2, budget=1200), mc('mc_execq', 'all', 'tso', P=2, D=1, E=2, budget=900)],
         oracle='every item consumed exactly once and per producer in order; consume function never concurrent (plain flag under the HB race detector); join() returns, and only after everything was consumed; after refused launches (fault choices, E) the next accepted signal drains everything',
     ),
+    'C09': dict(
+        title='epoch: nothing becomes reclaimable while a reader that may see it is in a region',
+        quick=[mc('mc_epoch', '0,2,3,5', 'tso', P=2, D=2, E=0, budget=100), mc('mc_epoch', '1,4,6', 'tso', P=2, D=1, E=0, budget=150), mc('mc_epoch', 'all', 'sc', P=2, budget=100)],
+        thorough=[mc('mc_epoch', 'all', 'tso', P=2, D=2, E=0, budget=1500), mc('mc_epoch', 'all', 'sc', P=3, budget=600), mc('mc_epoch', '0,2,3,5', 'tso', P=3, D=2, E=0, budget=600)],
+        oracle='writer protocol of GarbageCollector (unlink, tick, reclaim iff low_water_mark() >= tick); reclaim poisons + deletes: a reader inside its region touching a reclaimed object trips the freed-memory oracle and an explicit flag; after all regions closed low_water_mark() == UINT64_MAX',
+        assumptions=['tick() weakened to relaxed would still be a locked instruction on x86 and is not observable under TSO (DESIGN section 7)'],
+    ),
+    'C10': dict(
+        title='garbage collector: reclaimers run exactly once, never early, before stop returns',
+        quick=[mc('mc_gc', '0,1,3,4,5', 'sc', P=2, E=0, budget=150), mc('mc_gc', '2', 'sc', P=1, E=0, budget=60)],
+        thorough=[mc('mc_gc', 'all', 'sc', P=2, E=1, budget=1500), mc('mc_gc', '0,1,3,4', 'sc', P=3, E=0, budget=900), mc('mc_gc', '0,1', 'tso', P=2, D=1, budget=600)],
+        oracle='per reclaimer: invoked exactly once when stop()/the destructor returned, never while a region that was open at its retirement is still open, never destroyed uninvoked; retire blocks on a full queue and resumes (deadlock detector)',
+    ),
 }
 
 SEQX_ASSUMPTIONS = [
